@@ -547,7 +547,7 @@ func (u *Unit) callStatic(c *ast.CallExpr, fun ast.Expr, fi *FuncInfo, env *Env)
 	}
 	args := u.evalArgs(c, sig, env)
 	blk := u.Prog.Contracts.Get(fi.Key, "")
-	if blk != nil && !(len(u.curFn) == 1 && false) {
+	if blk != nil && blk.Opts["inline"] == "" {
 		return u.callByContract(c, fi, blk, recv, args, env)
 	}
 	return u.inline(c, fi, recv, args, env)
@@ -629,6 +629,11 @@ func (u *Unit) inline(c *ast.CallExpr, fi *FuncInfo, recv *Value, args []Value, 
 				env.vars[obj] = u.zero(obj.Type())
 			}
 		}
+	}
+	if iblk := u.Prog.Contracts.Get(fi.Key, ""); iblk != nil {
+		// an "opt inline" block: its ghostinit clauses run when the body is entered
+		iblk.Bound = true
+		u.runGhostKind(env, iblk, "ghostinit")
 	}
 	outs := u.execBlock(fi.Decl.Body.List, env)
 	var res []Outcome
@@ -745,6 +750,38 @@ func (u *Unit) callByContract(c *ast.CallExpr, fi *FuncInfo, blk *Block, recv *V
 	sig := fi.Obj.Type().(*types.Signature)
 	scope := u.paramScope(fi, recv, args)
 	sc := &specCtx{names: scope, fi: fi, clockBase: env.clock, old: env.clone(), blk: blk}
+	// ghost variables of the callee: passed by name from the caller's ghost of the same name (else arbitrary)
+	type gbind struct {
+		name string
+		sort Sort
+		ty   types.Type
+		obj  types.Object
+	}
+	var ghosts []gbind
+	for _, cl := range blk.Of("ghost") {
+		name, sort, of := parseGhostDecl3(cl.Text)
+		g := gbind{name: name, sort: sort}
+		if of != "" {
+			save := u.inSpec
+			u.inSpec = true
+			v := u.sv(u.parseSpec(Clause{Text: of, File: cl.File, Line: cl.Line}), env, sc)
+			u.inSpec = save
+			g.ty = &ghostArr{elem: v.Ty}
+		}
+		var entry Term
+		if obj := u.ghosts[name]; obj != nil && env.vars[obj].Sort == sort {
+			g.obj = obj
+			entry = env.vars[obj]
+		} else {
+			entry = u.D.Fresh("gin_"+fi.Obj.Name()+"_"+name, sort)
+		}
+		scope[name] = Value{entry, g.ty}
+		ghosts = append(ghosts, g)
+	}
+	sc.oldNames = map[string]Value{}
+	for k, v := range scope {
+		sc.oldNames[k] = v
+	}
 	// preconditions
 	for i, cl := range blk.Of("requires") {
 		label := cl.Label
@@ -772,15 +809,19 @@ func (u *Unit) callByContract(c *ast.CallExpr, fi *FuncInfo, blk *Block, recv *V
 		gvals = append(gvals, Value{rv, rt})
 		name := fmt.Sprintf("r%d", i)
 		scope[name] = Value{rv, rt}
+		sc.oldNames[name] = Value{rv, rt}
 		if n := sig.Results().At(i).Name(); n != "" {
 			scope[n] = Value{rv, rt}
+			sc.oldNames[n] = Value{rv, rt}
 		}
 	}
-	for _, cl := range blk.Of("ghost") {
-		name, sort := parseGhostDecl(cl.Text)
-		w := u.D.Fresh("w_"+fi.Obj.Name()+"_"+name, sort)
-		scope[name] = Value{w, nil}
-		env.alias[fi.Obj.Name()+"_"+name] = w // the caller may name the callee's witnesses (latest call wins)
+	for _, g := range ghosts {
+		w := u.D.Fresh("w_"+fi.Obj.Name()+"_"+g.name, g.sort)
+		scope[g.name] = Value{w, g.ty}
+		env.alias[fi.Obj.Name()+"_"+g.name] = w // the caller may name the callee's witnesses (latest call wins)
+		if g.obj != nil {
+			env.vars[g.obj] = w
+		}
 	}
 	sc.post = true
 	for _, cl := range blk.Of("ensures") {
@@ -817,6 +858,17 @@ func (u *Unit) siteTag(c *ast.CallExpr) string {
 	return fmt.Sprintf("call%d", found)
 }
 
+// references of the modifies set that can index the heap called name
+func modsFor(refs map[string][]Term, name string) []Term {
+	var out []Term
+	for prefix, ts := range refs {
+		if prefix == "" || strings.HasPrefix(name, prefix) || (strings.HasPrefix(name, "AB_") && strings.HasPrefix(prefix, "FH_")) {
+			out = append(out, ts...)
+		}
+	}
+	return out
+}
+
 type modSet struct {
 	all  bool
 	refs map[string][]Term // heap name ("" = any heap) -> refs
@@ -835,12 +887,32 @@ func (u *Unit) evalModifies(blk *Block, env *Env, sc *specCtx) modSet {
 				continue
 			}
 			sub := Clause{Kind: "modifies", Text: part, Line: cl.Line, File: cl.File}
-			t := u.specTermCtx(sub, env, sc)
+			save := u.inSpec
+			u.inSpec = true
+			v := u.sv(u.parseSpec(sub), env, sc)
+			u.inSpec = save
+			t := v.Term
+			// the static type tells which heaps the reference indexes (references of different Go types never alias)
+			prefix := ""
+			if v.Ty != nil {
+				switch tt := types.Unalias(v.Ty).Underlying().(type) {
+				case *types.Pointer:
+					if si := u.maybeStruct(tt.Elem()); si != nil {
+						prefix = "FH_" + si.GoName + "_"
+					} else {
+						prefix = "PH_"
+					}
+				case *types.Slice:
+					prefix = "SH_"
+				case *types.Map:
+					prefix = "M"
+				}
+			}
 			switch t.Sort {
 			case SRef:
-				ms.refs[""] = append(ms.refs[""], t)
+				ms.refs[prefix] = append(ms.refs[prefix], t)
 			case SSlice:
-				ms.refs[""] = append(ms.refs[""], sBase(t))
+				ms.refs["SH_"] = append(ms.refs["SH_"], sBase(t))
 			default:
 				unsup("modifies target of sort %s: %s", t.Sort, part)
 			}
@@ -891,7 +963,7 @@ func (u *Unit) havocOneForCall(env *Env, name string, old Term) {
 	}
 	r := u.D.Bound("r", SRef)
 	guard := lt(u.birth(r), pf.clk0)
-	for _, m := range pf.mods.refs[""] {
+	for _, m := range modsFor(pf.mods.refs, name) {
 		guard = And(guard, Not(Same(r, m)))
 	}
 	env.assume(Forall([]Term{r}, Imp(guard, Same(Select(nh, r), Select(old, r))), []Term{Select(nh, r)}))
